@@ -379,6 +379,21 @@ Proof.
   rewrite compute_summary_eq. simpl. fold arcs k. split; [apply weak_rev_spec | apply weak_rev_arcs]; exact OK.
 Qed.
 
+(** weak reversibility in terms of the reactions themselves *)
+Theorem net_weak_rev_reactions net iso r : NoDup (map rid net) ->
+  let cs := fst (complex_graph net iso) in
+  let arcs := snd (complex_graph net iso) in
+  (weakly_rev (compute_summary net iso r) = true <->
+   forall e u v, In e net ->
+     nth_error cs u = Some (side_vec net iso (rlhs e)) -> nth_error cs v = Some (side_vec net iso (rrhs e)) ->
+     dpath arcs v u).
+Proof.
+  intros ND cs arcs. destruct (net_weak_rev net iso r) as (_ & W). fold arcs in W. rewrite W.
+  destruct (complex_arcs_spec net iso ND) as (_ & A). fold cs arcs in A. split.
+  - intros H e u v I Hu Hv. apply H. apply A. eauto.
+  - intros H u v I. apply A in I. destruct I as (e & I & Hu & Hv). eapply H; eauto.
+Qed.
+
 (** fuel sufficiency, stated on its own: none of the closures the model computes (undirected for the classes, forward and
     backward for strong connectivity) ever runs out of the fuel k + 1 *)
 Theorem net_fuel net iso u :
